@@ -368,25 +368,89 @@ Proof.
   cbn [fst snd m_s mk_obs o_d]. split; [rewrite Eob; eauto|].
   (* the sequencer publishes the event and stops *)
   set (ev := mk_ev (s_dealt s + 1) (N.pos p) VPut k v None) in *.
-  set (sS := set_events (set_committed (set_slots s1 (slot_set (s_slots s1) (s_committed s1 + 1) None)) (e_rev ev))
-                        (ev :: s_events (set_committed (set_slots s1 (slot_set (s_slots s1) (s_committed s1 + 1) None)) (e_rev ev)))).
+  set (sX := set_slots s1 (slot_set (slot_set (s_slots s) (s_dealt s + 1) (Some ev)) (s_dealt s + 1) None)).
+  set (sS := set_events (set_committed sX (e_rev ev)) (ev :: s_events sX)).
   assert (Hc1 : s_committed s1 + 1 = s_dealt s + 1) by (rewrite F1; lia).
   assert (E1 : step s1 LSeq = sS).
   { unfold step, step_gen, seq_step. rewrite F2, Qs, Hc1, Hs, slot_set_same. reflexivity. }
   assert (Eset : settle seq_fuel (m_held m) s1 = sS).
   { change seq_fuel with (S (S 62)). rewrite settle_S, F2, Qs, Hc1, Hs, slot_set_same, E1, settle_S.
-    assert (s_seq sS = SeqIdle) as -> by (unfold sS; cbn; rewrite F2; exact Qs).
+    assert (s_seq sS = SeqIdle) as -> by (unfold sS, sX; cbn [s_seq set_events set_committed set_slots]; rewrite F2; exact Qs).
     assert (s_slots sS (s_committed sS + 1) = None) as ->; [|reflexivity].
-    unfold sS. cbn [s_slots s_committed set_events set_committed set_slots ev mk_ev e_rev].
-    rewrite Hc1, Hs. rewrite slot_set_other by lia. rewrite slot_set_other by lia.
+    unfold sS, sX. cbn [s_slots s_committed set_events set_committed set_slots ev mk_ev e_rev].
+    rewrite slot_set_other by lia. rewrite slot_set_other by lia.
     destruct (s_slots s (s_dealt s + 1 + 1)) as [e0|] eqn:SL; [apply (i_slot _ I1) in SL; lia|reflexivity]. }
   rewrite Eset. split.
-  - unfold quiescent, no_live_request, sS. cbn [s_threads s_seq s_retry s_queue s_dealt s_committed set_events set_committed set_slots ev mk_ev e_rev].
+  - unfold quiescent, no_live_request, sS, sX. cbn [s_threads s_seq s_retry s_queue s_dealt s_committed set_events set_committed set_slots ev mk_ev e_rev].
     split; [|split; [rewrite F2; exact Qs|split; [rewrite F3; exact Qr|split; [rewrite F4; exact Qq|exact Hd]]]].
     intros t0 th0 G0. destruct (N.eq_dec t0 t) as [->|Ne].
     + rewrite G' in G0. injection G0 as <-. rewrite P'. reflexivity.
     + rewrite F7 in G0 by exact Ne. apply (NL t0 th0 G0).
   - intros k' v' r' H'. rewrite lookup_remove in H'. destruct (k' =? k) eqn:Ek; [discriminate|]. apply N.eqb_neq in Ek.
     destruct (HL k' v' r' H') as [rest' [Hv' Ht']]. exists rest'. split; [|exact Ht'].
-    unfold vers, sS. cbn [s_store set_events set_committed set_slots]. rewrite Hst, apply_batch_other; [exact Hv'|exact Ek].
+    unfold vers, sS, sX. cbn [s_store set_events set_committed set_slots]. rewrite Hst, apply_batch_other; [exact Hv'|exact Ek].
+Qed.
+
+Lemma conv_step_probe evs a d o :
+  (cs_probe (conv_step evs a (d, o)) = None /\ cs_probe_ok (conv_step evs a (d, o)) = cs_probe_ok a)
+  \/ (d = DList /\ exists h l, o_d o = OListed h l /\ drained (book_step (cs_book a) (d, o)) o = true /\
+      cs_probe (conv_step evs a (d, o)) = Some l /\ cs_probe_ok (conv_step evs a (d, o)) = cs_probe_ok a)
+  \/ (exists k v prev l val, d = DWrite (OUpdate k v prev) [] false false /\ cs_probe a = Some l /\
+      lookup_kv k l = Some (val, prev) /\ cs_probe (conv_step evs a (d, o)) = Some (remove_kv k l) /\
+      cs_probe_ok (conv_step evs a (d, o)) = cs_probe_ok a && match o_d o with OResp (ROk _ _) _ => true | _ => false end).
+Proof.
+  unfold conv_step.
+  repeat match goal with |- context [match ?x with _ => _ end] => destruct x eqn:? end;
+    try (left; split; reflexivity).
+  all: try (right; left; split; [reflexivity|]; do 2 eexists; repeat split; try reflexivity; eassumption).
+  all: right; right;
+    match goal with H : (_ =? _) = true |- _ => apply N.eqb_eq in H end; subst;
+    do 5 eexists; repeat split; try eassumption; try reflexivity;
+    match goal with H : o_d _ = _ |- _ => rewrite H; reflexivity end.
+Qed.
+
+Lemma probe_fold q evs ds : forall m a,
+  MI q m -> Sim (cs_book a) (m_s m) -> Forall dstep_wf ds ->
+  (forall l, cs_probe a = Some l -> PI l (m_s m)) -> cs_probe_ok a = true ->
+  cs_probe_ok (fold_left (conv_step evs) (combine ds (snd (script_run m ds))) a) = true.
+Proof.
+  induction ds as [|d ds IH]; intros m a M S W HP OK; [exact OK|].
+  inversion W as [|? ? Wd Wds]; subst.
+  destruct (dstep_sim q (cs_book a) m d M S Wd) as [M1 [S1 _]].
+  pose proof (probe_hit q m) as PH.
+  cbn [script_run].
+  destruct (dstep_run m d) as [m1 o] eqn:ED. cbn [fst snd] in *.
+  specialize (IH m1 (conv_step evs a (d, o)) M1).
+  destruct (script_run m1 ds) as [m2 os] eqn:ES. cbn [fst snd combine fold_left] in *.
+  apply IH; clear IH; [rewrite conv_step_book; exact S1|exact Wds| |].
+  - intros l Hl. destruct (conv_step_probe evs a d o) as [[H _]|[[-> [h [l' [Ho [Dr [Hp _]]]]]]|[k [v [prev [l' [val [-> [Ha [Hk [Hp _]]]]]]]]]]].
+    + rewrite H in Hl. discriminate.
+    + rewrite Hp in Hl. injection Hl as <-.
+      cbn [dstep_run] in ED. injection ED as <- <-. cbn [mk_obs o_d] in Ho. injection Ho as <- <-.
+      apply (PI_of_list q _ (mi_reach _ _ M)). apply quiescentb_spec.
+      refine (drained_quiescent_at q m _ _ M S1 _ _ Dr); reflexivity.
+    + rewrite Hp in Hl. injection Hl as <-.
+      destruct (PH l' k v prev val M (HP l' Ha) Hk) as [_ H]. rewrite ED in H. exact H.
+  - destruct (conv_step_probe evs a d o) as [[_ H]|[[-> [h [l' [Ho [Dr [_ H]]]]]]|[k [v [prev [l' [val [-> [Ha [Hk [_ H]]]]]]]]]]]; rewrite H; try exact OK.
+    destruct (PH l' k v prev val M (HP l' Ha) Hk) as [[u Hu] _]. rewrite ED in Hu. cbn [snd] in Hu. rewrite Hu, OK. reflexivity.
+Qed.
+
+(* (6) after a drained List, a conditional update at the listed revision of a listed key succeeds
+   [<- quiescence of the drained state (simulation) + Inv2: the listed revision is the newest version and the index
+   agrees with it, so the CAS of the update holds] *)
+Theorem oracle_clause_probe c : c09_valid c -> c09_check c = true -> cs_probe_ok (conv_of c) = true.
+Proof.
+  intros W C. destruct (check_spec c C) as [Eo _]. unfold conv_of. rewrite Eo.
+  apply (probe_fold r0 _ (c_script c) minit cs0 minit_MI minit_Sim W); [intros l H; discriminate|reflexivity].
+Qed.
+
+(* the oracle is sound on every case inside the stated assumptions whose recorded observation is the model's: all six
+   clauses are theorems, so it reports no violation *)
+Theorem oracle_sound c : c09_valid c -> c09_check c = true -> c09_oracle c = None.
+Proof.
+  intros W C. unfold c09_oracle.
+  rewrite (valid_not_outside _ W), (oracle_clause_class c W C), (oracle_clause_book c W C),
+          (oracle_clause_ack c W C), (oracle_clause_increasing c W C), (oracle_clause_probe c W C),
+          (oracle_clause_converges c W C).
+  reflexivity.
 Qed.
